@@ -315,7 +315,11 @@ fn run_inner(scn: &Scn, res: &mut Res) -> Result<(), String> {
     res.log.u64(res.found.len() as u64);
 
     // ---- interchangeability: later operations on deserialized / expanded / original objects
-    interop(scn, &a, &ctx_b, res)?;
+    if scn.spec.n <= 1024 {
+        interop(scn, &a, &ctx_b, res)?;
+    } else {
+        res.count("probe.large_ring_deployment", 1);
+    }
     Ok(())
 }
 
@@ -483,6 +487,16 @@ fn plain_equal_mod_trailing_zeros(a: &Plaintext, b: &Plaintext) -> bool {
 
 fn gen_scn(rng: &mut Prng, run_seed: u64, i: usize) -> Option<Scn> {
     let mut opts = SpecOpts::serialization();
+    // now and then a realistic ring size: bulk code paths only show with thousands of coefficients
+    let big = i % 64 == 17;
+    if big {
+        opts.ns = vec![2048, 4096, 8192];
+        opts.min_primes = 2;
+        opts.max_primes = 3;
+        opts.qbits = vec![30, 36, 40, 50, 60];
+        opts.tbits = vec![17, 20];
+        opts.batching = true;
+    }
     // deployments do operations: keep at least a little noise room where key switching is used
     if rng.coin() {
         opts.min_primes = 2;
@@ -490,8 +504,13 @@ fn gen_scn(rng: &mut Prng, run_seed: u64, i: usize) -> Option<Scn> {
     let spec = gen::draw_spec(rng, &opts)?;
     let count = rng.range(1, 6);
     let mut objects = Vec::new();
+    const BIG_KINDS: &[&str] = &["plain", "sk", "ct", "ctfull", "ctterms", "pk", "poly", "plain1d", "plain2d", "cipher1d", "params", "vec"];
     for j in 0..count {
-        let kind = objs::KINDS[(i * 7 + j * 5 + rng.usize_below(objs::KINDS.len())) % objs::KINDS.len()];
+        let kind = if big {
+            BIG_KINDS[(i + j * 5 + rng.usize_below(BIG_KINDS.len())) % BIG_KINDS.len()]
+        } else {
+            objs::KINDS[(i * 7 + j * 5 + rng.usize_below(objs::KINDS.len())) % objs::KINDS.len()]
+        };
         objects.push((kind.to_string(), rng.next_u64() >> 1));
     }
     Some(Scn {
